@@ -103,6 +103,8 @@ fn finals(tier: Tier) -> Vec<(u16, &'static str, Vec<(&'static str, &'static str
         (201, "1.1", vec![("Location", "/created/1"), ("X-After", "1")], BodySpec::Length(b"ok".to_vec())),
         // both framing headers: chunked wins on HTTP/1.1
         (200, "1.1", vec![("Content-Length", "3")], ch1.clone()),
+        (300, "1.1", vec![], BodySpec::Length(vec![])),
+        (205, "1.1", vec![], BodySpec::Length(b"abc".to_vec())),
         // a head with many fields (40), body after it
         (200, "1.1", MANY_FIELDS.to_vec(), BodySpec::Length(b"xy".to_vec())),
     ];
